@@ -8,6 +8,8 @@ CONSTANTS
   ReadThenUnlink = TRUE
   UnlinkOnDrop = TRUE
   CreateErrIsExist = FALSE
+  DirtyAfterWrite = TRUE
+  MaxFail = 1
 INVARIANTS TypeOK Refines DirIsMap NothingLeftBehind OccupiedIffInserted ReadsReturnStored GoneIsError
 
 CHECK_DEADLOCK FALSE
